@@ -31,6 +31,12 @@
  *         script=passive_during_check (F-C04c, fixed by 1c45f06): while A's asynchronous command runs (held by a latch until the forced
  *         helper has come back), a passive result for A is processed and A is forced: the forced helper must find the guard busy; before
  *         the fix ProcessCheckResult reset m_CheckRunning for EVERY result and a second execution of A started
+ *         script=api_force: host H, service S of H, host D behind a disable_checks dependency, all idle and due in 600 s.  For every reason
+ *         for which the scheduler skips an unforced check (own flag off, period closed, global flag of the type off, dependency failed) a
+ *         FORCED check is requested through a production entry point - the reschedule-check API action (ApiActions::RescheduleCheck,
+ *         force=true) and the external commands SCHEDULE_FORCED_HOST_CHECK / SCHEDULE_FORCED_SVC_CHECK - and must be executed; the same
+ *         request without force must be skipped; `E force` is logged when the request is made (the checkable cannot be taken before the
+ *         entry point's own SetNextCheck, it is due in 600 s)
  *   K <cid> <enabled 0|1> <check_us> <retry_us> <async> <service> <foreign>  declaration (enabled = active checks on and period open at
  *                                                        the start; async = the command behaves like PluginCheckTask: spawns and returns;
  *                                                        service = a Service of one of the hosts; foreign = its zone is not the local zone)
@@ -43,7 +49,7 @@
  *   E fin <cid>             | <inIdle> <inPending> <key_us> <now_us>   ExecuteCheckHelper's final section
  *   E obj <cid>             | <inIdle> <inPending> <key_us> <now_us>   ObjectHandler section (not the early return)
  *   E nc <cid>              | <inIdle> <inPending> <key_us> <now_us>   NextCheckChangedHandler re-indexed
- *   E dec <cid>                                                   helper about to DecreasePendingChecks
+ *   E dec <cid>             | <next_us> <now_us>                  helper about to DecreasePendingChecks: ExecuteCheck() has returned; next_check as it stands now
  *   E gE|gB|gR <cid>                                              m_CheckRunning: set / found busy / reset
  *   E xs|xe <cid>           | <now_us>                            command started / finished (body returned or process exited)
  *   E as <cid>                                                    async command: process spawned (pluginchecktask.cpp:56)
@@ -74,6 +80,8 @@
 #include "remote/zone.hpp"
 #include "methods/pluginchecktask.hpp"
 #include "base/process.hpp"
+#include "icinga/apiactions.hpp"
+#include "icinga/externalcommandprocessor.hpp"
 #include <atomic>
 #include <chrono>
 #include <cmath>
@@ -298,7 +306,12 @@ static void Hook(const char *name, const void *obj)
 	else if (!strcmp(name, "sched.skip")) { r.kind = kSkip; sets = true; }
 	else if (!strcmp(name, "sched.dispatch") || !strcmp(name, "helper.start")) { MaybeDelay(); return; } /* outside the lock: delay only */
 	else if (!strcmp(name, "helper.finish")) { r.kind = kFin; sets = true; }
-	else if (!strcmp(name, "helper.dec")) r.kind = kDec;
+	else if (!strcmp(name, "helper.dec")) {
+		/* ExecuteCheck() has returned (result delivered, process spawned, or guard found busy): where does next_check stand now? */
+		r.kind = kDec;
+		r.x = Us(l_C[cid]->obj->GetNextCheck());
+		r.now = Us(Utility::GetTime());
+	}
 	else if (!strcmp(name, "object.done")) { r.kind = kObj; sets = true; }
 	else if (!strcmp(name, "nextcheck.reindex")) { r.kind = kNc; sets = true; }
 	else if (!strcmp(name, "guard.enter")) r.kind = kGE;
@@ -656,7 +669,8 @@ static void PrintTrace(FILE *out)
 			case kSkip: fprintf(out, "E skip %d 0 | %d %d %lld %lld %d %d %d %d %d %d %d\n", r.cid, r.inIdle, r.inPending, r.key, r.now, r.counter,
 				r.facts & 1, (r.facts >> 1) & 1, (r.facts >> 2) & 1, (r.facts >> 3) & 1, (r.facts >> 4) & 1, (r.facts >> 5) & 1); break;
 			case kFin: case kObj: case kNc: fprintf(out, "E %s %d | %d %d %lld %lld\n", k, r.cid, r.inIdle, r.inPending, r.key, r.now); break;
-			case kDec: case kGE: case kGB: case kGR: case kForce: case kAs: case kPi: case kPd: case kPr: fprintf(out, "E %s %d\n", k, r.cid); break;
+			case kDec: fprintf(out, "E dec %d | %lld %lld\n", r.cid, r.x, r.now); break;
+			case kGE: case kGB: case kGR: case kForce: case kAs: case kPi: case kPd: case kPr: fprintf(out, "E %s %d\n", k, r.cid); break;
 			case kXs: case kXe: fprintf(out, "E %s %d | %lld\n", k, r.cid, r.now); break;
 			case kOb: case kOe:
 				if (r.a == oSetNext) fprintf(out, "E %s %d %s %lld\n", k, r.cid, l_OpName[r.a], r.x);
@@ -695,7 +709,9 @@ static int RunScenario(const std::vector<std::string>& w)
 	}
 	bool passiveScript = kv.count("script") && kv["script"] == "passive_during_check";
 	if (passiveScript) { n = 2; pool = 0; maxc = 4; mut = 0; }
-	bool scripted = wakeup || skipPause || wakeResched || eligScript || passiveScript;
+	bool apiForce = kv.count("script") && kv["script"] == "api_force";
+	if (apiForce) { n = 3; pool = 0; maxc = 4; mut = 0; }
+	bool scripted = wakeup || skipPause || wakeResched || eligScript || passiveScript || apiForce;
 
 	Configuration::Concurrency = 12; /* thread pool = 24 threads */
 	InitIcinga();
@@ -742,7 +758,7 @@ static int RunScenario(const std::vector<std::string>& w)
 		z->Register();
 	}
 	/* gate hosts: parents of explicit `disable_checks` dependencies; never scheduled themselves, their state is set by the harness */
-	int ngates = scripted ? (eligScript ? 1 : 0) : 2;
+	int ngates = scripted ? ((eligScript || apiForce) ? 1 : 0) : 2;
 	for (int g = 0; g < ngates; g++) {
 		Gate *gt = new Gate();
 		gt->obj = new Host();
@@ -763,8 +779,8 @@ static int RunScenario(const std::vector<std::string>& w)
 		/* one in three is a Service of an earlier host (the host is a checkable of the scenario like any other: it goes DOWN, is
 		 * paused, deactivated …); in the eligibility probe checkable 1 is a service of host 0 */
 		int hostCid = -1;
-		if ((!scripted && i > 0 && rng.below(3) == 0) || (eligScript && i == 1)) {
-			for (int j = eligScript ? 0 : (int)rng.below(i), t = 0; t < i; t++, j = (j + 1) % i)
+		if ((!scripted && i > 0 && rng.below(3) == 0) || ((eligScript || apiForce) && i == 1)) {
+			for (int j = (eligScript || apiForce) ? 0 : (int)rng.below(i), t = 0; t < i; t++, j = (j + 1) % i)
 				if (!l_C[j]->svc) { hostCid = j; break; }
 		}
 		Checkable::Ptr h;
@@ -800,7 +816,7 @@ static int RunScenario(const std::vector<std::string>& w)
 		if (dis == 0) { h->SetEnableActiveChecks(false); enabled = false; ci->own = false; }
 		else if (dis == 1) { h->SetCheckPeriodRaw("closed"); enabled = false; ci->period = 2; }
 		else if (dis == 2) { h->SetCheckPeriodRaw("open"); ci->period = 1; }
-		if ((!scripted && rng.below(6) == 0) || (eligScript && i == 2)) {
+		if ((!scripted && rng.below(6) == 0) || ((eligScript || apiForce) && i == 2)) {
 			/* explicit dependency with disable_checks on a gate host (registered with the child's dependency groups by Checkable::Start) */
 			ci->gate = (int)rng.below(l_Gates.size());
 			Dependency::Ptr dep = new Dependency();
@@ -847,7 +863,7 @@ static int RunScenario(const std::vector<std::string>& w)
 		l_C[0]->enabled = false;
 		l_C[0]->own = false;
 	}
-	if (wakeResched || eligScript || passiveScript) {
+	if (wakeResched || eligScript || passiveScript || apiForce) {
 		for (CInfo *ci : l_C) {
 			ci->async = false; ci->mode = 0; ci->enabled = true; ci->own = true; ci->period = 0;
 			ci->obj->SetEnableActiveChecks(true); ci->obj->SetCheckPeriodRaw("");
@@ -876,7 +892,7 @@ static int RunScenario(const std::vector<std::string>& w)
 
 	printf("%s %s sched seed=%llu n=%d pool=%d max=%d dur_ms=%d mut=%d bound_ms=%s%s\n", w[0].c_str(), w[1].c_str(),
 		(unsigned long long)l_Seed, n, pool, maxc, durMs, mut, kv["bound_ms"].c_str(), wakeupAsync ? " script=wakeup_async" : wakeup ? " script=wakeup" : skipPause ? " script=skip_pause"
-			: wakeResched ? " script=wakeup_resched" : eligScript ? " script=eligibility" : pluginScript ? " script=plugin" : passiveScript ? " script=passive_during_check" : "");
+			: wakeResched ? " script=wakeup_resched" : eligScript ? " script=eligibility" : pluginScript ? " script=plugin" : passiveScript ? " script=passive_during_check" : apiForce ? " script=api_force" : "");
 	for (int i = 0; i < total; i++)
 		printf("K %d %d %lld %lld %d %d %d\n", i, l_C[i]->enabled ? 1 : 0, l_C[i]->checkUs, l_C[i]->retryUs, (l_C[i]->async || l_C[i]->plugin) ? 1 : 0,
 			l_C[i]->svc ? 1 : 0, l_C[i]->foreign ? 1 : 0);
@@ -975,7 +991,89 @@ static int RunScenario(const std::vector<std::string>& w)
 	std::vector<std::thread> threads;
 	for (int i = 0; i < mut; i++)
 		threads.emplace_back(Mutator, i, n);
-	if (wakeResched) {
+	if (apiForce) {
+		l_DelayPermille = 0;
+		auto waitFor5 = [](std::function<bool()> cond, int ms) {
+			for (int i = 0; i < ms * 2 && !cond(); i++)
+				std::this_thread::sleep_for(std::chrono::microseconds(500));
+			return cond();
+		};
+		auto ms = [](int k) { std::this_thread::sleep_for(std::chrono::milliseconds(k)); };
+		for (int i = 0; i < 3; i++) { std::unique_lock<std::mutex> l(l_C[i]->mut); if (l_C[i]->paused) OpResume(i); }
+		ms(30);
+		/* a request through a production entry point: entry 0 = reschedule-check API action, 1 = external command, 2 = the API action
+		 * without next_check (defaults to now) */
+		auto request = [&](int cid, bool force, int entry) {
+			CInfo& ci = *l_C[cid];
+			std::unique_lock<std::mutex> l(ci.mut);
+			double now = Utility::GetTime();
+			if (force) {
+				/* the request is made now; the checkable is idle under a key 600 s ahead, so the scheduler cannot take it before the
+				 * entry point's own SetNextCheck (which follows its SetForceNextCheck) */
+				auto& cmtx = l_Checker.get()->*get(C04MtxTag()); std::unique_lock<std::remove_reference_t<decltype(cmtx)>> lock(cmtx);
+				Rec r{}; r.kind = kForce; r.cid = cid; Append(r);
+			}
+			ci.epoch++;
+			LogOp(kOb, cid, oSetNext, Us(now));
+			if (entry == 1 && force) {
+				if (ci.svc) {
+					Service::Ptr sv = static_pointer_cast<Service>(ci.obj);
+					ExternalCommandProcessor::Execute(now, "SCHEDULE_FORCED_SVC_CHECK", { sv->GetHostName(), sv->GetShortName(), Convert::ToString((long)now) });
+				} else
+					ExternalCommandProcessor::Execute(now, "SCHEDULE_FORCED_HOST_CHECK", { ci.obj->GetName(), Convert::ToString((long)now) });
+			} else {
+				Dictionary::Ptr params = new Dictionary();
+				params->Set("force", force);
+				if (entry != 2)
+					params->Set("next_check", now);
+				ApiActions::RescheduleCheck(ci.obj, params);
+			}
+			LogOp(kOe, cid, oSetNext, Us(now));
+			ci.epoch++;
+		};
+		auto park = [&](int cid) { std::unique_lock<std::mutex> l(l_C[cid]->mut); OpSetNext(cid, Utility::GetTime() + 600); };
+		/* reasons: 0 own flag off, 1 period closed, 2 global flag of the type off, 3 dependency failed (D only) */
+		auto setReason = [&](int cid, int reason, bool on) {
+			std::unique_lock<std::mutex> l(l_C[cid]->mut);
+			switch (reason) {
+				case 0: OpSetOwn(cid, !on); break;
+				case 1: OpSetPeriod(cid, on ? 2 : 0); break;
+				case 2: OpSetGlobal(l_C[cid]->svc, !on); break;
+				default: OpSetGate(0, !on); break;
+			}
+		};
+		static const int combos[][2] = { {1, 1}, {0, 1}, {1, 0}, {1, 2}, {0, 2}, {2, 3}, {2, 0}, {2, 1} };
+		int rot = (int)rng.below(3);
+		for (int round = 0; round < 2; round++)
+		for (size_t k = 0; k < sizeof(combos) / sizeof(combos[0]); k++) {
+			int cid = combos[k][0], reason = combos[k][1];
+			CInfo& ci = *l_C[cid];
+			waitFor5([&]() { return Checkable::GetPendingChecks() == 0; }, 3000);
+			for (int i = 0; i < 3; i++) park(i);
+			setReason(cid, reason, true);
+			ms(12);
+			/* unforced: the scheduler takes it and must skip it (it re-arms it one interval ahead) */
+			long picks0 = l_Picks.load();
+			unsigned ex0 = ci.execNo.load();
+			request(cid, false, 0);
+			ms(25);
+			park(cid);
+			ms(8);
+			/* forced: must be executed whatever the reason */
+			ex0 = ci.execNo.load();
+			request(cid, true, (int)((k + round + rot) % 3));
+			waitFor5([&]() { return ci.execNo.load() > ex0; }, 1500);
+			ms(10);
+			setReason(cid, reason, false);
+			ms(12);
+			/* eligible again and unforced: runs */
+			park(cid);
+			ex0 = ci.execNo.load();
+			request(cid, false, (int)((k + round) % 2) * 2);
+			waitFor5([&]() { return ci.execNo.load() > ex0; }, 1500);
+			(void)picks0;
+		}
+	} else if (wakeResched) {
 		l_DelayPermille = 0;
 		auto waitFor3 = [](std::function<bool()> cond, int ms) {
 			for (int i = 0; i < ms * 2 && !cond(); i++)
@@ -1336,6 +1434,15 @@ int main(int argc, char **argv)
 			 * execution may start */
 			char buf[256];
 			snprintf(buf, sizeof(buf), "C %d sched seed=%llu n=2 pool=0 max=4 dur_ms=3000 mut=0 bound_ms=300 script=passive_during_check", caseNo++,
+				(unsigned long long)(rng.next() >> 16));
+			Job j;
+			j.line = buf;
+			jobs.push_back(j);
+		}
+		for (int i = 0; i < (thorough ? 2 : 1); i++) {
+			/* forced checks requested through the production entry points (API action, external commands) for every skip reason */
+			char buf[256];
+			snprintf(buf, sizeof(buf), "C %d sched seed=%llu n=3 pool=0 max=4 dur_ms=3000 mut=0 bound_ms=300 script=api_force", caseNo++,
 				(unsigned long long)(rng.next() >> 16));
 			Job j;
 			j.line = buf;
